@@ -47,7 +47,7 @@ Section Main.
       both phases with their invariants. *)
   Lemma pass_cases m ext :
     PassPre P m ext →
-    (∃ m', trace_pass K P m = (m', PPanicked) ∧ PanicPost K m m') ∨
+    (∃ m', trace_pass K P m = (m', PPanicked) ∧ PanicPost K P m m') ∨
     (∃ s1 s', CInv K P m [] [] s1 ∧ pc (t_m s1) = [] ∧ t_q s1 = [] ∧
               RInv K P m s1 [] s' ∧ t_root s' = [] ∧ t_q s' = [] ∧
               trace_pass K P m = (t_m s', PDone (t_non s'))).
@@ -99,7 +99,7 @@ Section Main.
   Proof.
     intros Hpre Hr. destruct (pass_cases m ext Hpre) as [(m1 & Hp & Hpp)|(s1 & s' & H)].
     - rewrite Hp in Hr. injection Hr as <-.
-      destruct Hpp as (Hfr & _ & Hsuf & Hsz & Hmk & Htc).
+      destruct Hpp as (Hfr & _ & Hsuf & Hsz & Hmk & Htc & _).
       split; [|split; [|split; [|split; [|split; [|split]]]]]; try done.
       + intros o Ho. apply Hmk. by apply (mframe_alloc K _ _ o Hfr).
       + destruct Hsuf as [k Hk]. pose proof (pp_nodup _ _ _ Hpre) as Hnd. rewrite Hk in Hnd.
@@ -120,7 +120,7 @@ Section Main.
     { rewrite Hp in Hr. done. }
     destruct H as (HC & Hpc1 & Hq1 & HR & Hr' & Hq' & Hp). rewrite Hp in Hr.
     injection Hr as <- <-.
-    pose proof HR as [Hfr Hnb Hpc Hsz Hh Hnd Hrs Hns Hil Hiq Hnp Hb Hcl Hresc].
+    pose proof HR as [Hfr Hnb Hpc Hsz Hh Hnd Hrs Hns Hil Hiq Hnp Hb Hcl Hresc Hunt].
     unfold lists in Hnd. rewrite Hr', Hq', (right_id_L [] (++)) in Hnd. cbn [app] in Hnd.
     split; [done|]. split; [done|]. split; [done|]. split.
     - intros o Ho. apply (mframe_alloc K _ _ o Hfr) in Ho.
@@ -157,7 +157,7 @@ Section Main.
     { rewrite Hp in Hr. done. }
     destruct H as (HC & Hpc1 & Hq1 & HR & Hr' & Hq' & Hp). rewrite Hp in Hr.
     injection Hr as <- <-.
-    pose proof HR as [Hfr Hnb Hpc Hsz Hh Hnd Hrs Hns Hil Hiq Hnp Hb Hcl Hresc].
+    pose proof HR as [Hfr Hnb Hpc Hsz Hh Hnd Hrs Hns Hil Hiq Hnp Hb Hcl Hresc Hunt].
     assert (Hlists : ∀ v, v ∈ lists s' ↔ v ∈ t_non s').
     { intros v. unfold lists. by rewrite Hr', Hq', (right_id_L [] (++)). }
     assert (Hn1 : o ∈ t_non s1) by (apply Hns, elem_of_app; by left).
@@ -215,7 +215,7 @@ Section Main.
     { rewrite Hp in Hr. done. }
     destruct H as (HC & Hpc1 & Hq1 & HR & Hr' & Hq' & Hp). rewrite Hp in Hr.
     injection Hr as <- <-.
-    pose proof HR as [Hfr Hnb Hpc Hsz Hh Hnd Hrs Hns Hil Hiq Hnp Hb Hcl Hresc].
+    pose proof HR as [Hfr Hnb Hpc Hsz Hh Hnd Hrs Hns Hil Hiq Hnp Hb Hcl Hresc Hunt].
     pose proof (V_nodup K P m s1 HC Hpc1 Hq1) as HVnd.
     assert (HVlt : ∀ p, p ∈ V s1 → (p < length (heap m))%nat).
     { intros p Hp'. by apply alloc_lt, (V_alloc K P m ext Hpre s1 HC Hpc1 Hq1). }
@@ -255,6 +255,37 @@ Section Main.
     pose proof (V_reach K P m s1 HC Hpc1 Hq1 u HuV) as Hur.
     pose proof (Hgood u HuV (Hup u Hur Ht)) as Hun.
     apply (ci_root _ _ _ _ _ _ HC) in Hu. apply (ci_non _ _ _ _ _ _ HC) in Hun. done.
+  Qed.
+
+  (** 8. (for the safety invariants) every header is either untouched by the pass, or belongs
+      to an object reachable from the buffer and ends with [tc <= rc]; whatever the result.
+      In particular the "value already dropped" flag of no object changes. *)
+  Theorem pass_hdr_bound m ext m' r :
+    PassPre P m ext → trace_pass K P m = (m', r) →
+    ∀ o, hdr_of m' o = hdr_of m o ∨ (reach P m o ∧ (tc m' o ≤ rc m o)%N).
+  Proof.
+    intros Hpre Hr. destruct (pass_cases m ext Hpre) as [(m1 & Hp & Hpp)|(s1 & s' & H)].
+    - rewrite Hp in Hr. injection Hr as <- <-. apply Hpp.
+    - destruct H as (HC & Hpc1 & Hq1 & HR & Hr' & Hq' & Hp). rewrite Hp in Hr.
+      injection Hr as <- <-. intros o.
+      destruct (decide (o ∈ V s1)) as [Ho|Ho].
+      + right. split; [by apply (V_reach K P m s1 HC Hpc1 Hq1)|].
+        rewrite (ri_hdr _ _ _ _ _ _ HR o). cbn [h_tc set_mark].
+        apply (CInv_tc_le K P m ext Hpre [] s1 o HC). by rewrite (V_tracked s1 Hpc1 Hq1).
+      + left. rewrite (ri_out _ _ _ _ _ _ HR o Ho).
+        apply (ci_un _ _ _ _ _ _ HC). by rewrite (V_tracked s1 Hpc1 Hq1).
+  Qed.
+
+  Theorem pass_dropped_stable m ext m' r :
+    PassPre P m ext → trace_pass K P m = (m', r) →
+    ∀ o, is_dropped (hdr_of m' o) = is_dropped (hdr_of m o).
+  Proof.
+    intros Hpre Hr o. destruct (pass_hdr_bound m ext m' r Hpre Hr o) as [->|[Hre Hle]]; [done|].
+    pose proof (pp_rcmax _ _ _ Hpre o Hre) as Hmax.
+    destruct (pp_reach _ _ _ Hpre o Hre) as (_ & _ & Hnd).
+    unfold is_dropped, tc_dropped, max_rc in *.
+    destruct (N.eqb_spec (tc m' o) 16383) as [?|_]; [lia|].
+    by destruct (N.eqb_spec (tc m o) 16383).
   Qed.
 
   (** 2. spelled-out consequences of [pass_frame] (Pass.v) *)
@@ -300,3 +331,5 @@ Print Assumptions pass_closed.
 Print Assumptions pass_no_bad.
 Print Assumptions pass_panicked.
 Print Assumptions pass_complete.
+Print Assumptions pass_hdr_bound.
+Print Assumptions pass_dropped_stable.
